@@ -89,8 +89,8 @@ impl Exchange {
         }
         // 2^127
         let pow: [u64; 4] = [
-            0x8000000000000000,
             0x0000000000000000,
+            0x8000000000000000,
             0x0000000000000000,
             0x0000000000000000,
         ];
@@ -149,7 +149,7 @@ impl Exchange {
         temp.extend_from_slice(&y2.to_byte_be());
 
         let mut prepend: Vec<u8> = Vec::new();
-        prepend.write_u16::<BigEndian>(0x02_u16).unwrap();
+        prepend.push(0x02);
         prepend.extend_from_slice(&yv_bytes);
         prepend.extend_from_slice(&sm3_hash(&temp));
         Ok((r2_point, sm3_hash(&prepend)))
@@ -163,8 +163,8 @@ impl Exchange {
         }
         // 2^127
         let pow: [u64; 4] = [
-            0x8000000000000000,
             0x0000000000000000,
+            0x8000000000000000,
             0x0000000000000000,
             0x0000000000000000,
         ];
@@ -218,7 +218,7 @@ impl Exchange {
         let temp_hash = sm3_hash(&temp);
 
         let mut prepend: Vec<u8> = Vec::new();
-        prepend.write_u16::<BigEndian>(0x02_u16).unwrap();
+        prepend.push(0x02);
         prepend.extend_from_slice(&yu_bytes);
         prepend.extend_from_slice(&temp_hash);
 
@@ -228,7 +228,7 @@ impl Exchange {
         }
 
         let mut prepend: Vec<u8> = Vec::new();
-        prepend.write_u16::<BigEndian>(0x03_u16).unwrap();
+        prepend.push(0x03);
         prepend.extend_from_slice(&yu_bytes);
         prepend.extend_from_slice(&temp_hash);
         Ok(sm3_hash(&prepend))
@@ -258,7 +258,7 @@ impl Exchange {
         temp.extend_from_slice(&y2.to_byte_be());
 
         let mut prepend: Vec<u8> = Vec::new();
-        prepend.write_u16::<BigEndian>(0x03_u16).unwrap();
+        prepend.push(0x03);
         prepend.extend_from_slice(&yv.to_byte_be());
         prepend.extend_from_slice(&sm3_hash(&temp));
         let s_2 = sm3_hash(&prepend);
